@@ -171,6 +171,38 @@ def client_to_configured_device(ctx):
                 problems.append(dict(w, problem='a Set Attribute Single carrying an acceptable route path (%r) did not land' % (r,))); return problems
             if r not in good and now == [val]:
                 problems.append(dict(w, problem='a Set Attribute Single carrying route path %r, which a device configured 1/0 must refuse, landed' % (r,))); return problems
+        # ---- on a Forward Open connection (client.implicit): an operation WITH a route path leaves the connection and travels as an
+        # Unconnected Send carrying that path, so the device's filter judges it like any other; one without travels connected
+        try:
+            ic = client.implicit(host='127.0.0.1', port=port, timeout=3)
+        except Exception as e:
+            problems.append(dict(api='client.implicit', problem='a Forward Open connection could not be established: %s' % type(e).__name__)); return problems
+        try:
+            with ic:
+                for r in [None, [{'port': 1, 'link': 0}], [{'port': 1, 'link': 1}], [{'port': 2, 'link': '1.2.3.4'}], [{'port': 1, 'link': 0}, {'port': 2, 'link': 5}]]:
+                    serial[0] += 1
+                    val = serial[0] * 100 + 77
+                    op = dict(path=[{'symbolic': 'T'}, {'element': 11}], elements=1, tag_type=196, data=[val], method='write')
+                    if r is not None:
+                        op['route_path'] = r
+                    try:
+                        list(ic.operate([op], depth=0, multiple=0, timeout=3))
+                    except Exception:
+                        pass
+                    with client.connector(host='127.0.0.1', port=port, timeout=3) as rd:
+                        now = None
+                        for _i, _d, _q, _r, sts, v in rd.operate(list(client.parse_operations(['T[11]'])), depth=0, timeout=3):
+                            now = list(v) if v else None
+                    w = dict(api='client.implicit (Forward Open connection)', route=r, value=val, element_after=now)
+                    if r in good and now != [val]:
+                        problems.append(dict(w, problem='a write on an implicit connection with an acceptable route path (%r) did not land' % (r,))); break
+                    if r not in good and now == [val]:
+                        problems.append(dict(w, problem='a write on an implicit connection carrying route path %r, which a device configured 1/0 must refuse, landed' % (r,))); break
+        finally:
+            try:
+                ic.close()
+            except Exception:
+                pass
         return problems
     finally:
         proc.terminate()
